@@ -139,6 +139,8 @@ class MessageSchema(Schema):
     def to_dict(self, in_data: str, **kwargs: Any) -> dict[str, str]:  # noqa: ANN401, ARG002
         """Transform message string to a dict."""
         list_data = in_data.rstrip().split(DELIMITER, len(self.fields) - 1)
+        if len(list_data) != len(self.fields):
+            raise ValidationError("Not a valid message string, too few fields.")
         return dict(zip(self.fields, list_data, strict=False))
 
     @post_load
